@@ -26,8 +26,9 @@
 (*              channel (lost, lost+acknowledged, duplicated, altered,      *)
 (*              wrong session id, wrong sender, swapped with the next       *)
 (*              stanza, replaced by a close = stream cut short)             *)
-(*   Inject(w)  a third party puts a block with the expected sequence       *)
-(*              number into the channel (other sender / other session)     *)
+(*   Inject(w,t) a third party (stranger, other resource of the sender's     *)
+(*              account) or another session puts an open / block / close     *)
+(*              with the right session id into the channel, at any point     *)
 (*   Burst(k)   k fault-free rounds (block delivered, acknowledged, next    *)
 (*              block sent) as one step: closed form used for long          *)
 (*              transfers; cross-checked against the single steps by        *)
@@ -51,7 +52,8 @@ CONSTANTS W,            \* wrap modulus of the sequence counter
           MaxFaults,    \* bound on Fault steps per behaviour
           MaxInject,    \* bound on Inject steps per behaviour
           FaultKinds,   \* subset of StreamFaults
-          InjectKinds,  \* subset of {"from", "sid"}
+          InjectKinds,  \* subset of {"from", "res", "sid"}
+          InjectElems,  \* subset of {"open", "data", "close"}
           Bursts,       \* burst lengths offered to the model checker
           MaxHist
 
@@ -201,13 +203,18 @@ Fault(k) ==
     /\ Log([a |-> "Fault", k |-> k])
     /\ UNCHANGED <<n, ann, sState, sErr, sSeq, sOff, sReq, sNext, rState, rErr, rSeq, got, ni>>
 
-\* a block that is not part of the stream: other sender, or other session
-Inject(w, seq) ==
-    /\ ni < MaxInject /\ w \in {"from", "sid"}
-    /\ rState = "Transfer"
-    /\ s2r' = <<Msg("data", 0, seq, 0, 0, IF w = "sid" THEN "bad" ELSE "ok", IF w = "from" THEN "X" ELSE "S")>> \o s2r
+\* an element that is not part of the stream, at any point of the transfer: an <open/>, a block
+\* (carrying the sequence number the receiver expects) or a <close/> with the RIGHT session id from a
+\* stranger ("from": another bare JID, X) or from another resource of the sender's account ("res",
+\* Y), or from the sender for another session ("sid").  The job is found by full JID and session
+\* id, so all of them are refused (item-not-found) and change nothing.
+InjectFrom(w) == IF w = "from" THEN "X" ELSE IF w = "res" THEN "Y" ELSE "S"
+Inject(w, t, seq) ==
+    /\ ni < MaxInject /\ w \in {"from", "res", "sid"} /\ t \in {"open", "data", "close"}
+    /\ rState # "None"
+    /\ s2r' = <<Msg(t, 0, IF t = "data" THEN seq ELSE 0, 0, 0, IF w = "sid" THEN "bad" ELSE "ok", InjectFrom(w))>> \o s2r
     /\ ni' = ni + 1
-    /\ Log([a |-> "Inject", w |-> w])
+    /\ Log([a |-> "Inject", w |-> w, t |-> t])
     /\ UNCHANGED <<n, ann, fk, sState, sErr, sSeq, sOff, sReq, sNext, rState, rErr, rSeq, got, r2s, held, nf>>
 
 (* --- k fault-free rounds as one step ---------------------------------------- *)
@@ -229,7 +236,7 @@ Burst(k) ==
 Next ==
     \/ Offer \/ RDeliver \/ SDeliver
     \/ \E k \in FaultKinds : Fault(k)
-    \/ \E w \in InjectKinds : Inject(w, rSeq)
+    \/ \E w \in InjectKinds : \E t \in InjectElems : Inject(w, t, rSeq)
     \/ \E k \in Bursts : Burst(k)
 
 Spec == Init /\ [][Next]_vars
@@ -265,6 +272,12 @@ CleanInv ==
     (nf = 0 /\ ni = 0 /\ s2r # <<>> /\ s2r[1].t = "data") =>
         /\ Steady
         /\ got = File(sOff - 1) /\ rSeq = (sOff - 1) % W /\ sReq = sOff + 2 /\ sNext = sOff + 3
+
+\* an element that does not come from the offering full JID for this session never changes the job
+ForeignInert ==
+    [][(s2r # <<>> /\ ~Matched(Head(s2r)) /\ s2r' = Tail(s2r)) => UNCHANGED <<rState, rErr, rSeq, got>>]_vars
+\* the same on two consecutive observations (rs, re: state and error of the job, rw: blocks written)
+P_ForeignInert(foreign, rs0, re0, rw0, rs1, re1, rw1) == foreign => (rs1 = rs0 /\ re1 = re0 /\ rw1 = rw0)
 
 TypeOK ==
     /\ n \in Nat /\ ann \in {"both", "size", "hash", "none"} /\ fk \in StreamFaults \cup {"none"} /\ sOff \in 0..n /\ sSeq \in 0..(W - 1) /\ rSeq \in 0..(W - 1)
